@@ -70,6 +70,15 @@ var iqTypePool = P(stanza.GetIQ, stanza.SetIQ, stanza.ResultIQ)
 var hashPool = P(crypto.SHA1, crypto.SHA224, crypto.SHA256, crypto.SHA384, crypto.SHA512, crypto.SHA3_256, crypto.SHA3_512,
 	crypto.BLAKE2b_256, crypto.BLAKE2b_512, crypto.Hash(0), crypto.Hash(stdcrypto.MD5), crypto.Hash(255))
 
+// filler returns n bytes that are not all alike (0, 1, ..., 250, 0, ...).
+func filler(n int) []byte {
+	b := make([]byte, n)
+	for i := range b {
+		b[i] = byte(i % 251)
+	}
+	return b
+}
+
 var keysPool = P(nil, []crypto.Key{{Trusted: true, KeyID: []byte("abc")}}, []crypto.Key{{Trusted: false, KeyID: []byte{0xff}}, {Trusted: true}})
 
 var specs = []*spec{
@@ -290,7 +299,9 @@ var specs = []*spec{
 		},
 		samples: []string{`<slot xmlns="urn:xmpp:http:upload:0"><put url="https://example.org/put"><header name="Authorization">Basic a</header><header name="X">y</header></put><get url="https://example.org/get"/></slot>`}},
 	{name: "bin.Data", group: "upload-crypto", typ: typeOf(bin.Data{}), byPtr: true,
-		pools: map[string][]any{"MaxAge": P(time.Duration(0), time.Second, 90*time.Second, 1500*time.Millisecond, -time.Second, time.Duration(math.MaxInt64/int64(time.Second))*time.Second)},
+		pools: map[string][]any{"MaxAge": P(time.Duration(0), time.Second, 90*time.Second, 1500*time.Millisecond, -time.Second, time.Duration(math.MaxInt64/int64(time.Second))*time.Second),
+			// payload sizes around the base64 group and around the buffer sizes an encoder may work in
+			"Data": P([]byte(nil), []byte("a"), []byte("ab"), []byte("abc"), []byte{0xff, 0x00, 0x10, 0x80}, filler(511), filler(512), filler(513), filler(1024), filler(1025), filler(3071), filler(3073), filler(4095), filler(4096), filler(4097), filler(4098), filler(8191), filler(8193), filler(32769), filler(65537), filler(200001))},
 		// XEP-0231 max-age is a whole number of seconds, 0 meaning "do not cache";
 		// a negative age cannot be expressed
 		norm: func(p any) {
